@@ -85,10 +85,13 @@ func rssmCheck(c *Ctx, s *Sink, p *packages.Package, fd *ast.FuncDecl) {
 		}
 		return true
 	})
-	for _, st := range lit.Body.List {
-		if as, ok := st.(*ast.AssignStmt); ok && len(as.Lhs) == 1 {
-			if id, ok := as.Lhs[0].(*ast.Ident); ok && id.Name == "previous" {
-				prevVar = info.ObjectOf(id)
+	// the "previous byte" variable: assigned from the byte variable at the end of the loop body
+	for _, st := range loop.Body.List {
+		if as, ok := st.(*ast.AssignStmt); ok && len(as.Lhs) == 1 && len(as.Rhs) == 1 && as.Tok == token.ASSIGN {
+			if rootObj(info, as.Rhs[0]) == cvar && cvar != nil {
+				if id, ok := as.Lhs[0].(*ast.Ident); ok {
+					prevVar = info.ObjectOf(id)
+				}
 			}
 		}
 	}
